@@ -67,7 +67,7 @@ def cases(tier, seed):
             pat += [["set", "itersLimit", 1], ["solve"]]          # a lowered limit: nothing more may be evaluated
         scn["pattern"] = pat
         out.append(scn)
-    n = 320 if tier == "quick" else 4000
+    n = 480 if tier == "quick" else 15000
     for i in range(n):
         rng = scenario.rng_for(seed, "C03", i)
         scn = scenario.gen_scenario(rng, max_iters=500 if tier == "quick" else 3000)
